@@ -38,7 +38,9 @@ BodyMimes(ex) == IF ex \in {"j", "jc", "jb", "jn", "oj", "qj"} THEN {"applicatio
                  ELSE IF ex = "u" THEN {"application/x-www-form-urlencoded"}
                  ELSE IF ex = "m" THEN {"multipart/form-data"} ELSE {}
 \* field names of the Query<..> struct
-QueryNames(ex) == IF ex \in {"q", "qj"} THEN {"q", "n"} ELSE IF ex = "qc" THEN {"page", "tag"} ELSE {}
+QueryNames(ex) == IF ex \in {"q", "qj"} THEN {"q", "limit", "n"} ELSE IF ex = "qc" THEN {"page", "tag"} ELSE {}
+\* ... and those of them the extractor cannot do without (QPlain declares `q` before `limit`: not in alphabetical order)
+QueryRequired(ex) == IF ex \in {"q", "qj"} THEN {"q", "limit"} ELSE IF ex = "qc" THEN {"page"} ELSE {}
 \* statuses of the return type (MyError documents 400 and 500)
 RetStatuses(rt) == IF rt \in {"text", "string", "json", "jsonc", "jvec"} THEN {"200"}
                    ELSE IF rt = "created" THEN {"201"} ELSE IF rt = "nocontent" THEN {"204"}
@@ -201,6 +203,9 @@ Warnings(apps, F) ==
               ELSE LET x == RouteFor(apps, o.tmpl, m)  sg == SigOfH(apps, x.h) IN
                    (IF StatusesOf(o.op) # RetStatuses(sg.rt) THEN {"extra-response-status"} ELSE {})
                    \cup (IF sg.ex = "oj" /\ o.op.bodyreq THEN {"optional-body-documented-required"} ELSE {})
+                   \cup (IF QueryDecl(o.op) = QueryNames(sg.ex)
+                            /\ {o.op.params[i].name : i \in {j \in DOMAIN o.op.params : o.op.params[j]["in"] = "query" /\ o.op.params[j].required}} # QueryRequired(sg.ex)
+                         THEN {"query-parameter-requiredness"} ELSE {})
                    \cup (IF SeqToSet(o.op.security) # ExpectedSchemes(Guards(apps, x)) THEN {"security-schemes-differ"} ELSE {})
                    \cup (IF \E i \in DOMAIN F.reach : F.reach[i].raw = o.raw /\ F.reach[i].method = m /\ F.reach[i].h \notin {0, x.h} THEN {"documented-operation-reaches-another-handler"} ELSE {})
               : o \in OpsOf(F)}
